@@ -166,7 +166,11 @@ func (p *Path) runFrame(fr *Frame) {
 			if len(st) > 1200 {
 				st = st[:1200]
 			}
-			panic(engineBug{fmt.Sprintf("%v at %s", r, p.site(p.curFrame)), st})
+			chain := ""
+			for f, k := p.curFrame, 0; f != nil && k < 14; f, k = f.caller, k+1 {
+				chain += " <- " + f.fn.String()
+			}
+			panic(engineBug{fmt.Sprintf("%v at %s [%s]", r, p.site(p.curFrame), chain), st})
 		}
 		fr.panicking = &gp
 		// run deferred calls
@@ -854,5 +858,5 @@ func skipInitPkg(path string) bool {
 		"internal/chacha8rand", "vendor/golang.org/x/sys/cpu", "golang.org/x/sys/cpu", "golang.org/x/sys/unix":
 		return true
 	}
-	return strings.HasPrefix(path, "runtime/") || strings.HasPrefix(path, "internal/runtime/") || strings.HasPrefix(path, "crypto/internal/")
+	return strings.HasPrefix(path, "runtime/") || strings.HasPrefix(path, "internal/runtime/") || strings.HasPrefix(path, "crypto/")
 }
